@@ -22,6 +22,11 @@ ObsOK(ev, g, nn, len, t, ws) ==
     /\ Len(ev.obs) = Len(ws)
     /\ \A wi \in 1..Len(ws) : WinObsOK(ev.obs[wi], g, nn, len, t, ws[wi])
     /\ \A i \in 1..5 : ev.raw[i] \in {RawNarrow(g, nn, len, t, KindSeq[i]), RawWide(g, nn, len, t, KindSeq[i])}
+    \* the per-second items over all valid buckets (with or without the boundary bucket, as for the raw reading)
+    /\ "secs" \in DOMAIN ev =>
+          {ev.secs[i] : i \in 1..Len(ev.secs)} \in
+              {SecItems(g, Start(len, t) - nn * len + len, Start(len, t), ev.secoff),
+               SecItems(g, t - nn * len, Start(len, t), ev.secoff)}
 
 EvOK(ev) ==
     CASE ev.e = "reset"  -> /\ ev.ok
